@@ -985,10 +985,23 @@ impl fmt::Display for Type1<'_> {
 
     t1_str.push_str(&self.type2.to_string());
 
-    if let Type2::Typename { .. } = self.type2 {
-      if self.operator.is_some() {
-        t1_str.push(' ');
-      }
+    // An operand that ends in an identifier needs a blank before the operator
+    // (identifiers may contain '.'), and a control operator needs one before its
+    // controller (`.abnf` followed by `bstr` would read as `.abnfb str`).
+    let name_like = matches!(
+      self.type2,
+      Type2::Typename { .. } | Type2::Unwrap { .. } | Type2::ChoiceFromGroup { .. }
+    );
+    let is_ctl = matches!(
+      self.operator,
+      Some(Operator {
+        operator: RangeCtlOp::CtlOp { .. },
+        ..
+      })
+    );
+
+    if name_like && self.operator.is_some() {
+      t1_str.push(' ');
     }
 
     #[cfg(feature = "ast-comments")]
@@ -1003,7 +1016,7 @@ impl fmt::Display for Type1<'_> {
         t1_str.push_str(&comments.to_string());
       }
 
-      if let Type2::Typename { .. } = self.type2 {
+      if name_like || is_ctl {
         t1_str.push(' ');
       }
 
@@ -1018,7 +1031,7 @@ impl fmt::Display for Type1<'_> {
     if let Some(o) = &self.operator {
       t1_str.push_str(&o.operator.to_string());
 
-      if let Type2::Typename { .. } = self.type2 {
+      if name_like || is_ctl {
         t1_str.push(' ');
       }
 
